@@ -30,7 +30,7 @@ pub open spec fn derived_layout(t: &Type, ctx: &BindgenContext) -> Option<Layout
 UNIT = {
     "name": "type_layout",
     "env": [os.path.join(ENV, "trace_impls_env.rs"), os.path.join(ENV, "type_layout_env.rs")],
-    "declared_trusted": {r"external_body": 51},
+    "declared_trusted": {r"external_body": 56},
     "items": DECLS + [
         {"kind": "fn", "file": "bindgen/ir/layout.rs", "name": "new", "impl": r"^impl Layout$", "impl_header": "impl Layout", "impl_name": "Layout", "ret": "r",
          "ensures": ["r == (Layout { size: size, align: align, packed: false })"]},
@@ -50,6 +50,20 @@ UNIT = {
              "self.layout.is_some() ==> r == self.layout",
              # ... and where clang computed nothing, only the exact derivations - otherwise nothing
              "self.layout.is_none() ==> r == derived_layout(self, ctx)",
+         ]},
+        {"kind": "fn", "file": TY, "name": "new", **TI, "ret": "r",
+         "ensures": ["r.name == name && r.layout == layout && r.kind == kind && r.is_const == is_const"]},
+        # C06 ("every template instantiation with concrete arguments ... gets a size and alignment assertion [with] what the C/C++
+        # compiler computes"): the item BindgenContext::instantiate_template creates for an instantiation stores the layout clang
+        # computes for the instantiation's OWN type (let-statement R18) - not that of the cursor it was found at
+        {"kind": "fn", "file": "bindgen/ir/context.rs", "name": "instantiation_type", "impl": r"^impl BindgenContext$", "impl_nth": 0, "ret": "r",
+         "closure": {"enclosing": "instantiate_template", "anchor_re": r"(?m)^\s*let ty = Type::new\(", "nth": 0, "stmt": "let",
+                     "signature": "fn instantiation_type(self_: &BindgenContext, name: Option<String>, ty: &clang::Type, location: Cursor, type_kind: TypeKind) -> (r: Type)",
+                     "prefix": "{", "suffix": "; ty }"},
+         "subst": [(r"re:(?<![\w.])self(?![\w(:])", "self_", 0, "R18 captured self")],
+         "ensures": [
+             "r.layout == (match ty.s_fallible_layout(self_) { Ok(l) => Some(l), Err(_) => None })",
+             "r.kind == type_kind && r.is_const == ty.s_const() && r.name == name",
          ]},
     ],
 }
